@@ -195,6 +195,9 @@ func finish(c *Ctx, res *Result) int {
 			writeEvidence(c, states, trans, samples, exhaustive, runs, outcomes, res, 0, map[string]any{"unreproducible": res.Found.V.Error()})
 			return 2
 		}
+		if res.Found.Spec.Label != "" {
+			fmt.Printf("initial state: %s\n", res.Found.Spec.Label)
+		}
 		fmt.Printf("violation: cfg=%s\n  history: %s\n  %s\n", res.Found.Spec.Cfg, histString(res.Found.Hist), res.Found.V.Error())
 	}
 	for _, rv := range res.Raw {
@@ -305,6 +308,13 @@ func doReplay(path string) int {
 		return 2
 	}
 	spec.Cfg = rf.Cfg
+	if os.Getenv("VERIF_DUMP") == "1" {
+		w, _ := replay(spec, rf.History)
+		for _, kv := range w.visibleDump() {
+			fmt.Printf("  store %x = %x\n", kv.K, kv.V)
+		}
+		w.Close()
+	}
 	f := &Found{Spec: spec, Hist: rf.History, V: rf.Violation}
 	v, same := rerun(f)
 	fmt.Printf("replay of %s\n  cfg: %s\n  history: %s\n", path, rf.Cfg, histString(rf.History))
